@@ -25,7 +25,7 @@ META = {
     "technique": "TLA+ contract of graph optimization over Herbrand terms; TLC enumerates all small DAGs x requested "
                  "subsets with Denote/Needed; replay through every real optimizer + TLC validation of recorded calls",
     "level_text": "Small-scope exhaustive: every DAG with <= N nodes (tasks of arity <= 2 with repeated arguments, literals, "
-                  "list / nested-task arguments, data and alias nodes) x requested subsets is enumerated by TLC together with "
+                  "list / nested-task / dict arguments, data and alias nodes) x requested subsets is enumerated by TLC together with "
                   "Denote of every key; cull, inline, inline_functions, fuse_linear, fuse (parameter grid, renamers), "
                   "fuse_linear_task_spec, Task.fuse, resolve_aliases, _task_spec.cull and node substitution are applied to "
                   "the real graphs in several key styles / insertion orders / graph forms and the returned graph is "
@@ -347,7 +347,7 @@ def _labels(g):
     def walk(a):
         if a["t"] == "call":
             out.append(a["f"])
-        if a["t"] in ("list", "call"):
+        if a["t"] in ("list", "call", "dict"):
             for x in a["xs"]:
                 walk(x)
 
@@ -600,8 +600,9 @@ def run(ctx):
     total = 0
     sampled = False
     # (N, argument wraps, last-level sample (0 = all), requested subsets per graph (0 = all), cap on graphs, all variants?)
-    confs = ctx.pick([(3, '{"list", "call"}', 0, 2, 0, False), (4, "{}", 0, 1, 0, False)],
-                     [(3, '{"list", "call"}', 0, 0, 0, True), (4, '{"list"}', 0, 2, 12000, False), (5, "{}", 2, 1, 0, False)])
+    W3 = '{"list", "call", "dict"}'
+    confs = ctx.pick([(3, W3, 0, 1, 3000, False), (4, "{}", 0, 1, 3000, False)],
+                     [(3, W3, 0, 3, 0, True), (4, '{"list", "dict"}', 0, 2, 12000, False), (5, "{}", 2, 1, 0, False)])
     import dask.core  # noqa: F401 - imported before the worker processes are forked
     import dask.optimization  # noqa: F401
     xval = []
